@@ -128,6 +128,7 @@ pub fn gen_cfg(r: &mut Sm, p: &Profile, codec: CodecKind) -> Cfg {
         CodecKind::Fixed => 11,
         CodecKind::Postcard => 6,
         CodecKind::Bincode => 6,
+        CodecKind::Packed => 4,
     };
     let mps = if r.chance(p.tight_mps_pct) {
         (hdr + r.below(40)) as usize
@@ -162,7 +163,7 @@ pub fn gen_setup(r: &mut Sm, p: &Profile) -> Setup {
     };
     Setup {
         id: VId::new(1, *r.pick(&[0u16, 1, 1, 2])),
-        policy: *r.pick(&[Policy::None, Policy::Bump, Policy::Bump, Policy::Same, Policy::Lose, Policy::SameEq]),
+        policy: *r.pick(&[Policy::None, Policy::Bump, Policy::Bump, Policy::Same, Policy::Lose, Policy::SameEq, Policy::Tie]),
         codec,
         handler,
         cfg: gen_cfg(r, p, codec),
@@ -414,7 +415,7 @@ pub fn gen_op(r: &mut Sm, p: &Profile, inst: &Instance, ctx: &Ctx) -> Op {
                 3 => VId::new(6, 0),
                 _ => gen_id(r, p, own),
             };
-            Op::ChId(id, *r.pick(&[Policy::None, Policy::Bump, Policy::Same, Policy::Lose, Policy::SameEq]))
+            Op::ChId(id, *r.pick(&[Policy::None, Policy::Bump, Policy::Same, Policy::Lose, Policy::SameEq, Policy::Tie]))
         }
         _ => {
             let mut c = inst.setup.cfg.clone();
